@@ -45,6 +45,7 @@ type tierCfg struct {
 	serialProcs   int
 	selfRuns      int
 	pairsM        int
+	firstPer      int
 	preemptPairs  int
 	preemptCap    int
 	burstSeconds  float64
@@ -54,9 +55,9 @@ type tierCfg struct {
 }
 
 var tiers = map[string]tierCfg{
-	"quick": {name: "quick", corrupt: 300, churn: 1200, serialSeconds: 20, serialProcs: 16, selfRuns: 200, pairsM: 64, preemptPairs: 96, preemptCap: 300,
+	"quick": {name: "quick", corrupt: 300, churn: 1200, serialSeconds: 20, serialProcs: 16, selfRuns: 200, pairsM: 64, firstPer: 3, preemptPairs: 96, preemptCap: 300,
 		burstSeconds: 12, burstMin: 1500, burstProcs: 6, hardCap: 15 * time.Minute},
-	"thorough": {name: "thorough", corrupt: 1500, churn: 6000, serialSeconds: 720, serialProcs: 16, selfRuns: 5000, pairsM: 420, preemptPairs: 3000, preemptCap: 2000,
+	"thorough": {name: "thorough", corrupt: 1500, churn: 6000, serialSeconds: 720, serialProcs: 16, selfRuns: 5000, pairsM: 420, firstPer: 12, preemptPairs: 3000, preemptCap: 2000,
 		burstSeconds: 240, burstMin: 30000, burstProcs: 6, hardCap: 90 * time.Minute},
 }
 
@@ -713,6 +714,13 @@ func doCheck(cfg tierCfg) int {
 			args: append([]string{"-mode", "preempt", "-w", fmt.Sprint(i), "-of", fmt.Sprint(ncpu), "-m", fmt.Sprint(cfg.preemptPairs), "-cap", fmt.Sprint(cfg.preemptCap), "-refs", table, "-out", out2, "-side", side2}, common...),
 			env:  []string{"GOMAXPROCS=1", "GOMEMLIMIT=3GiB"}})
 	}
+	nFirst := cfg.firstPer * 24
+	for k := 0; k < nFirst; k++ {
+		out := filepath.Join(scratch, fmt.Sprintf("first-%d.json", k))
+		ps = append(ps, &proc{name: fmt.Sprintf("first-%d", k), bin: b.serialBin, outFile: out, timeout: 5 * time.Minute,
+			args: append([]string{"-mode", "first", "-k", fmt.Sprint(k), "-m", fmt.Sprint(cfg.firstPer), "-refs", table, "-out", out}, common...),
+			env:  []string{"GOMAXPROCS=1", "GOMEMLIMIT=3GiB"}})
+	}
 	runAll(ps, ncpu)
 	sweep := newTotal()
 	for _, p := range ps {
@@ -728,8 +736,8 @@ func doCheck(cfg tierCfg) int {
 		sweep.add(s)
 		collect(s)
 	}
-	fmt.Printf("sweeps: %d ordered-pair chains (%d sampled operations: every ordered pair), %d single-preemption schedules\n",
-		sweep.Strategies["ordered-pair-sweep"], cfg.pairsM, sweep.Strategies["single-preemption-sweep"])
+	fmt.Printf("sweeps: %d ordered-pair chains (%d sampled operations: every ordered pair), %d single-preemption schedules, %d first-call chains (one fresh process each)\n",
+		sweep.Strategies["ordered-pair-sweep"], cfg.pairsM, sweep.Strategies["single-preemption-sweep"], sweep.Strategies["first-call-sweep"])
 
 	// -- phase 4: parallel bursts under the race detector ----------------------------------------------------------
 	burst := newTotal()
@@ -943,33 +951,34 @@ func doCheck(cfg tierCfg) int {
 			"distinct_nontrivial": overlappedDistinct,
 			"rule": "one evaluation = one simulated execution of a plan (2-6 caller tasks x 1-8 public-API calls) under one schedule: seeded serial runs, ordered-pair chains, single-preemption schedules and -race bursts. " +
 				"distinct_nontrivial counts serial runs (seeded runs and single-preemption schedules) whose schedule signature (hash of the (task, operation, yield site) triples at which the baton changed hands) is distinct AND in which two calls of different tasks actually overlapped (a context switch while both were in flight); counted from the per-run records; bursts and ordered-pair chains not included",
-			"samples":                                   samples,
-			"serial_seeded_runs":                        serialRuns,
-			"distinct_schedule_signatures":              distinct,
-			"runs_with_overlapping_calls":               tot.Overlapped,
-			"operations":                                tot.Ops,
-			"simulated_steps_yields":                    tot.Steps,
-			"context_switches":                          tot.Switches,
-			"runs_per_hour":                             float64(tot.Runs) / wall * 3600,
-			"seeds_per_hour":                            float64(serialRuns) / wall * 3600,
-			"simulated_time":                            fmt.Sprintf("%d yields (the library has no clock; simulated time is the global yield counter)", tot.Steps),
-			"faults_fired":                              tot.Faults,
-			"faults_configured_runs_or_ops":             tot.FaultsCfg,
-			"fault_kinds_with_zero_seams":               []string{"message loss/duplication/reordering", "partitions", "disk errors, torn/lost writes, full disk", "clock skew/jumps", "failing system calls or allocations"},
-			"strategies":                                tot.Strategies,
-			"contention_modes":                          tot.Contention,
-			"granularity":                               tot.Granularity,
-			"ops_by_entry":                              tot.Entries,
-			"ops_by_variant":                            tot.Variants,
-			"yield_sites_total":                         tot.SitesTotal,
-			"yield_sites_covered_max_per_process":       tot.SitesCovered,
-			"switch_edges_max_per_process":              tot.SwitchEdges,
-			"pool_inputs":                               tot.PoolInputs,
-			"pool_operations":                           tot.PoolOps,
-			"reference_table_hash":                      mst.RefTableHash,
-			"reference_entries_recomputed_by_workers":   tot.RefChecked,
-			"determinism_selftest":                      map[string]any{"run_indices": selfCompared, "processes": 3, "gomaxprocs": []int{1, 4, 16}, "identical": selfLogDiff == nil && selfOutDiff == nil},
-			"sweeps":                                    map[string]any{"ordered_pair_chains": sweep.Strategies["ordered-pair-sweep"], "ordered_pairs": cfg.pairsM * cfg.pairsM, "single_preemption_schedules": sweep.Strategies["single-preemption-sweep"]},
+			"samples":                                 samples,
+			"serial_seeded_runs":                      serialRuns,
+			"distinct_schedule_signatures":            distinct,
+			"runs_with_overlapping_calls":             tot.Overlapped,
+			"operations":                              tot.Ops,
+			"simulated_steps_yields":                  tot.Steps,
+			"context_switches":                        tot.Switches,
+			"runs_per_hour":                           float64(tot.Runs) / wall * 3600,
+			"seeds_per_hour":                          float64(serialRuns) / wall * 3600,
+			"simulated_time":                          fmt.Sprintf("%d yields (the library has no clock; simulated time is the global yield counter)", tot.Steps),
+			"faults_fired":                            tot.Faults,
+			"faults_configured_runs_or_ops":           tot.FaultsCfg,
+			"fault_kinds_with_zero_seams":             []string{"message loss/duplication/reordering", "partitions", "disk errors, torn/lost writes, full disk", "clock skew/jumps", "failing system calls or allocations"},
+			"strategies":                              tot.Strategies,
+			"contention_modes":                        tot.Contention,
+			"granularity":                             tot.Granularity,
+			"ops_by_entry":                            tot.Entries,
+			"ops_by_variant":                          tot.Variants,
+			"yield_sites_total":                       tot.SitesTotal,
+			"yield_sites_covered_max_per_process":     tot.SitesCovered,
+			"switch_edges_max_per_process":            tot.SwitchEdges,
+			"pool_inputs":                             tot.PoolInputs,
+			"pool_operations":                         tot.PoolOps,
+			"reference_table_hash":                    mst.RefTableHash,
+			"reference_entries_recomputed_by_workers": tot.RefChecked,
+			"determinism_selftest":                    map[string]any{"run_indices": selfCompared, "processes": 3, "gomaxprocs": []int{1, 4, 16}, "identical": selfLogDiff == nil && selfOutDiff == nil},
+			"sweeps": map[string]any{"ordered_pair_chains": sweep.Strategies["ordered-pair-sweep"], "ordered_pairs": cfg.pairsM * cfg.pairsM, "single_preemption_schedules": sweep.Strategies["single-preemption-sweep"],
+				"first_call_chains_fresh_process_each": sweep.Strategies["first-call-sweep"]},
 			"bursts":                                    map[string]any{"bursts": burst.Runs, "operations": burst.Ops, "gomaxprocs": []int{2, 4, 8, 16}, "race_reports": len(raceReports)},
 			"aborted_runs":                              tot.Aborted,
 			"degraded_runs":                             0,
